@@ -13,6 +13,8 @@ HEADER = """From Coq Require Import List ZArith QArith Bool. Import ListNotation
 From TLV Require Import Base.Tensor Corr.C03.
 Close Scope Q_scope."""
 
+SKIPPED = {"timeouts": 0}
+
 EP = {"cp": "tensorly.cp_tensor", "tucker": "tensorly.tucker_tensor", "tt": "tensorly.tt_tensor", "tr": "tensorly.tr_tensor",
       "ttm": "tensorly.tt_matrix", "p2": "tensorly.parafac2_tensor"}
 
@@ -363,6 +365,9 @@ def run_routes(d, rng, malformed=False, backends=("core", "einsum")):
                     continue
                 x, watch, err = tl_input(d, kind)
                 before = [None if a is None else a.copy() for a in watch]
+                if err == ("crash", "timeout"):
+                    SKIPPED["timeouts"] += 1
+                    continue
                 if err is not None:  # the wrapper constructor rejected the factor set
                     obs.append(((be, kind), ("validate",), err))
                     continue
@@ -374,7 +379,10 @@ def run_routes(d, rng, malformed=False, backends=("core", "einsum")):
                 for step, v in enumerate(seq):
                     if kind == "tuple" and d["kind"] == "cp" and d.get("onedim") and v[0] != "validate":
                         continue
-                    res = C.call_impl(call_view(d, x, v, kind, use_method=(step % 2 == 0)), timeout=10)
+                    res = C.call_impl(call_view(d, x, v, kind, use_method=(step % 2 == 0)), timeout=30)
+                    if res == ("crash", "timeout"):  # loaded machine: never a verdict, only a skipped observation
+                        SKIPPED["timeouts"] += 1
+                        continue
                     obs.append(((be, kind), v, res))
                     for a, b in zip(watch, before):
                         if a is not None and (a.shape != b.shape or a.tobytes() != b.tobytes()):
@@ -773,6 +781,7 @@ def run(chk):
     chk.cov["traces_validated_against_impl"] = n_eval
     chk.cov["decompositions"] = len(cases)
     chk.cov["exhaustive"] = False
+    chk.cov["skipped_timeouts"] = SKIPPED["timeouts"]
     chk.cov["rule"] = ("one case = one decomposition (CP / Tucker / TT / TR / TT-matrix / PARAFAC2; integer entries in [-3,3]) observed through every view "
                        "(validate|.shape/.rank, to_tensor [masked], to_unfolded for every mode + one invalid mode, to_vec, norm, to_matrix, slice(s)) under both tenalg backends, "
                        "as tuple and as wrapper object, along a shuffled multi-step sequence with repeats; CP: all shapes of order 1-3 over {1,2,3} (+ sampled order 4; thorough: all) x rank {1,2,3} x "
